@@ -164,7 +164,7 @@ PROPS["C16"] = {
             "non-trivial = a cycle killed with at least one acknowledgement and at least one write in flight",
     "assumptions": ["SIGKILL of the process (page cache survives): the quantifier of the property, not power loss", "kill instants are sampled in real time, not enumerated",
                     "in-flight = attempted after the last acknowledgement of that id"],
-    "units": [U("TestVerif_C16_KillCycles", "./pkg/db", R(12, shards=4, shrinktime="20s", timeout=600), R(500, shards=16, shrinktime="60s", timeout=1800), replay_tries=3),
+    "units": [U("TestVerif_C16_KillCycles", "./pkg/db", R(12, shards=4, shrinktime="20s", timeout=600), R(500, shards=16, shrinktime="60s", timeout=1800), replay_tries=3, replay_repeat=8),
               U("TestVerif_C16_CrashDuringOpen", "./pkg/db", PLAIN, PLAIN, kind="plain"),
               U("TestVerif_C16_BackToBackKills", "./pkg/db", PLAIN, PLAIN, kind="plain", replay_tries=3),
               U("TestVerif_C16_ManyCycles", "./pkg/db", PLAIN, PLAIN, kind="plain", replay_tries=2)],
@@ -296,7 +296,9 @@ PROPS["C09"] = {
             "path; at no time more than 200 page requests without a count request, no exit of Run, no process crash; non-trivial = hostile events or an append between count and page request, and at least one message forwarded",
     "assumptions": ["'eventually' is replaced by a bound: three further poll rounds after the closing height jump", "events that exist before the watcher's first count request are out of scope (it starts from the current count)",
                     "API faults make Run exit by design and are exercised under C08's safety oracle only"],
-    "units": [U("TestVerif_C09_Watcher", ALPH, R(200, shards=8, timeout=900, shrinktime="60s"), R(10000, shards=16, timeout=1800, shrinktime="120s"), replay_tries=3, replay_repeat=6, crash_is_violation=True)],
+    "units": [U("TestVerif_C09_Watcher", ALPH, R(200, shards=8, timeout=900, shrinktime="60s"), R(10000, shards=16, timeout=1800, shrinktime="120s"), replay_tries=3, replay_repeat=6, crash_is_violation=True,
+                # "never handed over" is judged once the request log has been quiet for two poll rounds of real time
+                wallclock_fps=["C09/message-never-observed"])],
 }
 
 def setup():
